@@ -3,7 +3,9 @@ package main
 import (
 	"fmt"
 	"os"
+	"os/signal"
 	"strconv"
+	"syscall"
 )
 
 func envSeed() uint64 {
@@ -43,6 +45,14 @@ func main() {
 		usage()
 	}
 	defer cleanupAll()
+	sig := make(chan os.Signal, 1)
+	signal.Notify(sig, syscall.SIGTERM, syscall.SIGINT, syscall.SIGHUP)
+	go func() {
+		<-sig
+		fmt.Fprintln(os.Stderr, "HARNESS-ERROR: interrupted")
+		cleanupAll()
+		os.Exit(2)
+	}()
 	switch os.Args[1] {
 	case "tool-probe":
 		toolProbe(os.Args[2:])
